@@ -96,7 +96,34 @@ class DlHistories(Stream):
             sc["spec"]["items"].append([L.pick_msg(rng, True).hex(), 2, 1])
             sc["kind"] = "long-message"
             scs.append(sc)
+        scs += self.plain_looking(rng)
         return reference_packets(scs)
+
+    def plain_looking(self, rng):
+        """histories in which a ciphered message's first octets equal the plain ones
+        (a COUNT whose keystream begins 00 00, found with the implementation's own cipher as a search aid), i.e. a
+        ciphertext that looks like a plain 5GMM message"""
+        import os
+        h = os.path.join(C.BIN, "harness")
+        out = []
+        for ea in (2, 1):
+            for attempt in range(3):
+                kenc = rng.bytes(16).hex()
+                try:
+                    r = C.harness_call(h, "kssearch", [{"alg": ea, "key": kenc, "bearer": 1, "dir": 1, "want": "0000", "from": 300, "tries": 1 << 19}], timeout=300)[0]
+                except Exception:
+                    break
+                if "count" not in r:
+                    continue
+                cnt = int(r["count"])
+                sc = scenario(rng, 2, ea, "mid", 0, False)
+                sc["kenc"] = kenc
+                sc["spec"]["last0"], sc["spec"]["ovf0"], sc["spec"]["sqn0"] = cnt - 1, ((cnt - 1) >> 8) & 0xffff, (cnt - 1) & 0xff
+                sc["spec"]["items"] = [[L.pick_msg(rng, True).hex(), 2, 1], [L.pick_msg(rng, True).hex(), 2, 1]]
+                sc["kind"] = "ciphertext-looks-plain"
+                out.append(sc)
+                break
+        return out
 
     def go_case(self, c):
         return c
